@@ -693,6 +693,8 @@ func (ip *Interp) binary(fr *frame, n ast.Node, op token.Token, l, r *Value, t t
 		out = And(lv, rv)
 	case token.XOR:
 		out = Xor(lv, rv)
+	case token.AND_NOT:
+		out = And(lv, Not(rv))
 	default:
 		ip.fail(fr, n, "operator %s", op)
 		return nil
